@@ -103,6 +103,10 @@ def release(F, R, d):
             ok = any(edge_dominates(b, s, t_, bi) for s, t_ in edges)
             R.ob('C11.release', '%s|%s|remove|after-handler-completed' % (d.name, top(b)), ok,
                  'inflight.remove(id) can run before the handler/control future has completed', b.loc(bi))
+            # ... and it is the last asynchronous step of the exchange: nothing is awaited after the release
+            later = [a for a in await_points(b) if a['poll'] in b.reachable_after(bi)]
+            R.ob('C11.release', '%s|%s|remove|nothing-awaited-after-the-release' % (d.name, top(b)), not later,
+                 'after inflight.remove(id) the exchange still awaits another service (%s): the id is free for reuse while its acknowledgement does not exist yet' % (later[0]['callee'] if later else ''), b.loc(bi))
     R.floor('C11.release', '%s remove sites' % d.name, n_rm, {'v3-server': 4, 'v3-client': 3, 'v5-server': 2, 'v5-client': 2}[d.name])
     # final acks constructed locally are paired with a remove; QoS2 PUBREC is not
     for b in helpers:
